@@ -257,7 +257,8 @@ def equivalents_of(fn: ast.FunctionDef) -> List[Tuple[str, ast.FunctionDef]]:
                     continue
                 stores_in = [x.id for x in inner if isinstance(x, ast.Name) and isinstance(x.ctx, ast.Store)]
                 comp_bound = {n_.id for x in inner if isinstance(x, ast.comprehension) for n_ in ast.walk(x.target) if isinstance(n_, ast.Name)}
-                loads_in = [x.id for x in inner if isinstance(x, ast.Name) and isinstance(x.ctx, ast.Load) and x.id in local_names and x.id not in comp_bound]
+                aug_reads = {id(x.target) for x in inner if isinstance(x, ast.AugAssign) and isinstance(x.target, ast.Name)}     # `v += e` reads v
+                loads_in = [x.id for x in inner if isinstance(x, ast.Name) and (isinstance(x.ctx, ast.Load) or id(x) in aug_reads) and x.id in local_names and x.id not in comp_bound]
                 inner_ids = {id(x) for x in inner}
                 used_outside = {x.id for x in nodes if isinstance(x, ast.Name) and isinstance(x.ctx, ast.Load) and id(x) not in inner_ids}
                 outs = [n_ for n_ in dict.fromkeys(stores_in) if n_ in used_outside and n_ not in comp_bound]
@@ -289,6 +290,11 @@ def equivalents_of(fn: ast.FunctionDef) -> List[Tuple[str, ast.FunctionDef]]:
                     helper = ast.FunctionDef(name=hname, args=ast.arguments(posonlyargs=[], args=[ast.arg(arg=a_) for a_ in argnames], kwonlyargs=[], kw_defaults=[], defaults=[]),
                                              body=body, decorator_list=[], returns=None, type_comment=None, type_params=[])
                     callee = ast.Attribute(value=ast.Name(id=selfname, ctx=ast.Load()), attr=hname, ctx=ast.Load()) if is_method else ast.Name(id=hname, ctx=ast.Load())
+                    owner_cls = getattr(fn, "_owner_class", None)
+                    if not is_method and owner_cls:
+                        # a static method: the helper is a static method of the same class, called through the class
+                        helper.decorator_list = [ast.Name(id="staticmethod", ctx=ast.Load())]
+                        callee = ast.Attribute(value=ast.Name(id=owner_cls, ctx=ast.Load()), attr=hname, ctx=ast.Load())
                     call = ast.Call(func=callee, args=[ast.Name(id=a_, ctx=ast.Load()) for a_ in ins], keywords=[])
                     repl = ast.Assign(targets=[ast.Name(id=outs[0], ctx=ast.Store())], value=call, lineno=moved[0].lineno, col_offset=0) if outs else ast.Expr(value=call)
                     b[k:k + ln_] = [repl]
@@ -392,6 +398,7 @@ def sweep(prop: str, jobs: int = 16, everything: bool = False) -> Dict:
         fn = _find(ast.parse(src), qual)
         if fn is None:
             continue
+        fn._owner_class = qual.rsplit(".", 1)[0] if "." in qual else None
         vs = equivalents_of(fn)
         per_fn[f"{rel}:{qual}"] = len(vs)
         for desc, new in vs:
